@@ -36,7 +36,7 @@ G = 'circus.config:get_config'
 
 
 def check(run, ctx):
-    run.each(ctx, [r1, r2, r3, r4, r5])
+    run.each(ctx, [r1, r2, r3, r4, r5, r6])
 
 
 # -- documentation ---------------------------------------------------------------
@@ -850,3 +850,11 @@ def r5(run, ctx):
                         ok = all(by_name(a.expr) for a in rdf.expand(node, key))
         run.check('R5', ok, 'the %s list is sorted by name' % lst, f, f.node,
                   'the order of %s depends on the file layout' % lst, construct='sort %s' % lst)
+
+
+def r6(run, ctx):
+    from rules import c13
+    run.share(ctx, c13.r4, 'R4', 'R6', 'a reference to a defined variable expands to its value, '
+              'whatever the value (shared with C13 R4, the substitution function '
+              'replace_gnu_args._repl): the lookup is by membership and case-folded - a '
+              'truthiness test would leave a variable defined as the empty string unexpanded')
